@@ -358,3 +358,124 @@ func hasTypeParam(t types.Type) bool {
 	}
 	return false
 }
+
+// typeArgText: a type written as an argument of a spec builtin, either bare (pkg.T) or as a string literal ("*T").
+func typeArgText(x Expr) string {
+	if s, ok := x.(EStr); ok {
+		return s.Val
+	}
+	return x.String()
+}
+
+// dispatchAxioms: for an interface type I and a concrete pointer type T, every pure method M
+// declared pure on both sides satisfies I.M(box_T(p)) == T.M(p) (dynamic dispatch).
+func (e *Engine) dispatchAxioms(it types.Type, ct types.Type) {
+	iface, ok := it.Underlying().(*types.Interface)
+	if !ok {
+		return
+	}
+	if _, isPtr := ct.Underlying().(*types.Pointer); !isPtr {
+		return
+	}
+	ms := types.NewMethodSet(ct)
+	id := e.S.TypeID(ct)
+	st := &State{heap: map[string]string{}, cells: map[int]Val{}, ghost: map[string]Val{}, alloc: "alloc!0"}
+	for i := 0; i < iface.NumMethods(); i++ {
+		m := iface.Method(i)
+		sig := m.Type().(*types.Signature)
+		if sig.Params().Len() != 0 || sig.Results().Len() != 1 || !e.P.pures[e.P.ifaceKey(it, m.Name())] {
+			continue
+		}
+		sel := ms.Lookup(m.Pkg(), m.Name())
+		if sel == nil {
+			continue
+		}
+		fn := e.P.prog.MethodValue(sel)
+		if fn == nil {
+			continue
+		}
+		key := e.P.funcKey(fn)
+		c := e.P.contracts[key]
+		if !(e.P.pures[fn.String()] || e.P.pures[key] || (c != nil && c.Pure)) {
+			continue
+		}
+		ax := fmt.Sprintf("ax_dispatch_%s_%d_%s", shortTypeName(it), id, m.Name())
+		if e.S.has(ax) {
+			continue
+		}
+		e.S.decls[ax] = &Decl{}
+		a := e.pureMethodApp(st, it, m.Name(), term(fmt.Sprintf("(mk_iface %d p!d)", id), it), nil, sig)
+		b := e.pureApp(st, fn, []Val{term("p!d", ct)})
+		fname := a.T[1:strings.Index(a.T, " ")]
+		e.S.AddAxiom([]string{fname}, fmt.Sprintf("(forall ((p!d Int)) (! (= %s %s) :pattern (%s)))", a.T, b.T, a.T))
+		// the concrete method's own contract (pure functions with ensures) as an axiom
+		if c != nil && c.Pure {
+			for _, en := range c.Ensures {
+				env := &Env{e: e, st: st, params: map[string]Val{}, bound: map[string]Val{}, pkg: c.Pkg, contract: c, callee: true, old: st}
+				rn := c.RecvName
+				if rn == "" && len(fn.Params) > 0 {
+					rn = fn.Params[0].Name()
+				}
+				env.params[rn] = term("p!d", ct)
+				env.results = []Val{b}
+				env.inEnsures = true
+				e.specEval++
+				body := env.eval(en.E)
+				e.specEval--
+				e.S.AddAxiom([]string{fname}, fmt.Sprintf("(forall ((p!d Int)) (! %s :pattern (%s)))", body.T, b.T))
+			}
+		}
+	}
+}
+
+// pureContractAxioms: a pure function with a contract is, in specifications, an uninterpreted
+// function constrained by its (exported) postconditions for all arguments. The heap the
+// postconditions read is the entry heap of the unit (sound while that part of the heap is not
+// modified by the unit, which its frame condition checks).
+func (e *Engine) pureContractAxioms(fn interface{ String() string }, c *Contract, name string, sorts []string, ptypes []types.Type, pnames []string, rt types.Type) {
+	key := "ax_purecontract_" + name
+	if e.S.has(key) || c == nil || !c.Pure || len(c.Ensures) == 0 {
+		return
+	}
+	e.S.decls[key] = &Decl{}
+	st := &State{heap: map[string]string{}, cells: map[int]Val{}, ghost: map[string]Val{}, alloc: "alloc!0"}
+	env := &Env{e: e, st: st, params: map[string]Val{}, bound: map[string]Val{}, pkg: c.Pkg, contract: c, callee: true, old: st}
+	var vars, args []string
+	for i, s := range sorts {
+		v := fmt.Sprintf("x!p%d", i)
+		vars = append(vars, fmt.Sprintf("(%s %s)", v, s))
+		args = append(args, v)
+		if i < len(pnames) {
+			env.params[pnames[i]] = term(v, ptypes[i])
+		}
+	}
+	app := name
+	if len(args) > 0 {
+		app = fmt.Sprintf("(%s %s)", name, strings.Join(args, " "))
+	}
+	env.results = []Val{term(app, rt)}
+	env.inEnsures = true
+	var pre []string
+	func() {
+		defer func() { recover() }()
+		e.specEval++
+		defer func() { e.specEval-- }()
+		for _, r := range c.Requires {
+			pre = append(pre, env.eval(r.E).T)
+		}
+		for _, en := range c.Ensures {
+			if strings.HasPrefix(en.Label, "local-") {
+				continue
+			}
+			body := env.eval(en.E).T
+			if len(pre) > 0 {
+				body = fmt.Sprintf("(=> (and %s) %s)", strings.Join(pre, " "), body)
+			}
+			if len(args) == 0 {
+				e.S.AddAxiom([]string{name}, body)
+			} else {
+				e.S.AddAxiom([]string{name}, fmt.Sprintf("(forall (%s) (! %s :pattern (%s)))", strings.Join(vars, " "), body, app))
+			}
+		}
+	}()
+}
